@@ -50,12 +50,14 @@ P = {
     ref='§4 C02'),
  'C03': dict(
     text='Lean 4: repr_from_instantiation is an injective prefix code on well-formed quote-free JSON-like values up to mapping order '
-         '(reprInst_injective_partial, by mutual structural induction, any nesting depth); the negation of the full statement is proved '
-         'on the K1 witness; equal keys force equal key texts for a collision-free hash. Correspondence: differing value pairs '
+         '(reprInst_injective_partial, by mutual structural induction, any nesting depth); the whole key text is an injective prefix code on '
+         'well-formed content (keyText_injective_partial: parameter names, values, the None marker, input names and input keys can be read back), '
+         'hence equal keys force equal persisted content and any difference upstream moves every key downstream (keyOf_injective_partial, '
+         'downstream_moves, for a collision-free hash); the negation of the full statement is proved on the K1 witness. Correspondence: differing value pairs '
          '(mutations, look-alikes, adversarial splices of quotes/separators) at distance 0-5 upstream and differing wirings on the real '
          'code: literal keys equal the model, and the oracle demands different locations; collisions inside the K1 class are reported as KNOWN-FINDING.',
-    note='partial (K1): hypothesis QuoteFree; sha256[:32] collision-freeness assumed; injectivity of the whole key text '
-         '(names/separators) and of Python-escaped strings is exercised by the correspondence, not yet a theorem; parameter objects opaque',
+    note='partial (K1): hypothesis QuoteFree/ParamsOK; sha256[:32] collision-freeness assumed (hypothesis hH); Path-typed parameters and ReprStr '
+         '(Python-escaped) are outside the key-text theorem and exercised by the correspondence; parameter objects opaque',
     technique='Lean 4 proof (prefix-code induction) + proved counterexample + differential correspondence',
     ref='§4 C03'),
  'C01': dict(
